@@ -1,6 +1,7 @@
 package props
 
 import (
+	dbm "github.com/tendermint/tm-db"
 	"crypto/sha256"
 	"encoding/binary"
 	"encoding/hex"
@@ -118,6 +119,19 @@ func TestC16Handler(t *testing.T) {
 	st := StatsFor("C16")
 	rapid.Check(t, func(t *rapid.T) {
 		w, ctx := caseNoICA()
+		if rapid.IntRange(0, 2).Draw(t, "nodeOptions") == 0 {
+			// the upgrade block is executed by a node whose operator runs it with other node-local options
+			// (telemetry, caches, pruning, tracing ...): what the upgrade stores must not depend on them
+			flags := DrawNodeFlags(t, "node_")
+			flags.TimeZone = ""
+			spec := BaseSpec()
+			spec.OmitModules = []string{"interchainaccounts"}
+			w = NewWorldWith(spec, flags)
+			c, _ := w.OpenFast().CacheContext()
+			ctx = c.WithEventManager(sdk.NewEventManager())
+			st.Class("upgrade_on_a_node_with_other_node_local_options")
+			defer newApp(dbm.NewMemDB()) // (the process goes on with default nodes)
+		}
 		v := &VestWorld{W: w, App: w.App, Ctx: ctx.WithBlockTime(nsTime(T0.UnixNano() + secNs)), NowNs: T0.UnixNano() + secNs, fresh: 1000}
 		runC16(t, st, v, true, false)
 	})
